@@ -928,30 +928,27 @@ func c08Merge(c *Ctx, t *tables.Tree) {
 		return
 	}
 	fk := "database.LoadDatabaseWithPersonal"
-	// LoadDatabase calls: which parameter each loads
-	loads := map[ssa.Value]int{} // db value -> param index
-	ssau.ForEachInstr(fn, false, func(in ssa.Instruction) {
-		call, ok := in.(*ssa.Call)
-		if !ok || ssau.CallName(call) != dbPkg+".LoadDatabase" {
-			return
-		}
+	// the two loads (of LoadDatabase, or of the helper that reads and decodes
+	// one file): which parameter each loads
+	type pl struct {
+		l   loadCall
+		par int
+	}
+	var pls []pl
+	for _, l := range loadCalls(c, fn) {
 		for i, p := range fn.Params {
-			if call.Common().Args[0] == ssa.Value(p) {
-				for _, ref := range *call.Referrers() {
-					if ex, ok := ref.(*ssa.Extract); ok && ex.Index == 0 {
-						loads[ex] = i
-					}
-				}
+			if l.path == ssa.Value(p) {
+				pls = append(pls, pl{l, i})
 			}
 		}
-	})
+	}
 	commandsOf := func(v ssa.Value) (int, bool) {
-		base, ok := ssau.IsFieldLoad(v, dbType, "Commands")
-		if !ok {
-			return 0, false
+		for _, x := range pls {
+			if x.l.commands(v) {
+				return x.par, true
+			}
 		}
-		i, ok := loads[base]
-		return i, ok
+		return 0, false
 	}
 	// the merged literal
 	var merged *ssa.Alloc
@@ -1004,6 +1001,11 @@ func c08Merge(c *Ctx, t *tables.Tree) {
 					if st, isSt := r2.(*ssa.Store); isSt {
 						for i, hp := range h.Params {
 							if st.Val == ssa.Value(hp) && i < len(call.Common().Args) {
+								// an exit that wraps one file's list alone (no notebook
+								// yet) is not the merge
+								if _, single := commandsOf(call.Common().Args[i]); single {
+									continue
+								}
 								merged, mergedVal, home, viaCtor = al, call.Common().Args[i], h, call
 							}
 						}
